@@ -250,13 +250,21 @@ func (r *RoutingTable) updateRouting() {
 		return
 	}
 
-	r.fillRoutingTable()
-	reports, err := r.updateRoutingTableOnCluster()
-	if err != nil {
-		r.log.V(2).Printf("[ERROR] Failed to update routing table on cluster: %v", err)
-		return
+	// A member may report data for a partition the pushed table does not list it for: a write that
+	// was in flight while the table was calculated. processLeftOverDataReports adds that member to the
+	// coordinator's copy of the owners list. Push the table once more in that case, otherwise the other
+	// members cannot find that data until the next periodic push.
+	for attempt := 0; attempt < 2; attempt++ {
+		r.fillRoutingTable()
+		reports, err := r.updateRoutingTableOnCluster()
+		if err != nil {
+			r.log.V(2).Printf("[ERROR] Failed to update routing table on cluster: %v", err)
+			return
+		}
+		if !r.processLeftOverDataReports(reports) {
+			return
+		}
 	}
-	r.processLeftOverDataReports(reports)
 }
 
 func (r *RoutingTable) processClusterEvent(event *discovery.ClusterEvent) {
